@@ -10,6 +10,9 @@ pub use graph::{
     ScheduledProgram,
 };
 
+#[cfg(rigetti_quil_rs_verif)]
+pub use graph::verif;
+
 pub use schedule::{
     ComputedScheduleError, ComputedScheduleItem, Schedule, ScheduleSeconds, Seconds, TimeSpan,
 };
